@@ -2,11 +2,11 @@ from runner import Job
 import stubs_number
 
 ASSUME = ['clang-14 -O1 lowering preserves semantics; llsym implements the IR semantics it uses; compiled with -D__SANITIZE_ADDRESS__ (sanitizer code path for key comparison)',
-          'texts are built from 14 concrete skeletons (scalar root, one/two/nested members, arrays, permuted / undeclared / escaped keys, empty object) whose first value slot is a symbolic digit and whose other slots range over six values of every kind via symbolic selectors',
+          'texts are built from 16 concrete skeletons (scalar root, one/two/nested members, arrays, permuted / undeclared / escaped keys, empty object) whose first value slot is a symbolic digit and whose other slots range over six values of every kind via symbolic selectors',
           'expected result = the merge stated by the property, computed on parsed copies with the DOM API (whose container behaviour is C12); comparison is an ordered structural walk',
           'number back ends as in C01 (pinned values run for real); std::string construction and std::multimap rebalancing modelled by their libstdc++ contracts; allocation never fails']
-PAIRS19 = [(e, x) for e in (0, 1, 2, 3, 4, 5, 12, 13) for x in (0, 1, 2, 5, 6, 7, 8, 9, 10, 11, 12, 13)]
-PAIRS20 = [(e, x) for e in (0, 1, 2, 3, 5, 11, 12, 13) for x in (0, 1, 2, 5, 6, 7, 8, 9, 11, 12, 13)]
+PAIRS19 = [(e, x) for e in (0, 1, 2, 3, 4, 5, 12, 13) for x in (0, 1, 2, 5, 6, 7, 8, 9, 10, 11, 12, 13, 14, 15)]
+PAIRS20 = [(e, x) for e in (0, 1, 2, 3, 5, 11, 12, 13) for x in (0, 1, 2, 5, 6, 7, 8, 9, 11, 12, 13, 14)]
 
 
 def jobs(pid, which, tier, defines=(), pairs=None, twice=0):
